@@ -2602,6 +2602,9 @@ func decodeAppresourcesCounters(data *[]byte) (SFlowAppresourcesCounters, error)
 	app := SFlowAppresourcesCounters{}
 	var cdf SFlowCounterDataFormat
 
+	if len(*data) < 48 {
+		return app, errors.New("app resources counters too small")
+	}
 	*data, cdf = (*data)[4:], SFlowCounterDataFormat(binary.BigEndian.Uint32((*data)[:4]))
 	app.EnterpriseID, app.Format = cdf.decode()
 	*data, app.FlowDataLength = (*data)[4:], binary.BigEndian.Uint32((*data)[:4])
